@@ -11,7 +11,7 @@ NOT_APPLICABLE = {
 }
 
 # Properties whose rule module has been reviewed and passes on the unchanged tree; only these are claimed in MANIFEST.json.
-READY = ['C01', 'C02', 'C03', 'C04', 'C05', 'C06', 'C07', 'C10', 'C12', 'C13', 'C15', 'C16', 'C17', 'C18', 'C19', 'C20', 'C21', 'C23', 'C24', 'C25', 'C26', 'C28', 'C29', 'C30', 'C31', 'C32', 'C33', 'C34', 'C35', 'C38', 'C40', 'C41']
+READY = ['C01', 'C02', 'C03', 'C04', 'C05', 'C06', 'C07', 'C08', 'C09', 'C10', 'C12', 'C13', 'C14', 'C15', 'C16', 'C17', 'C18', 'C19', 'C20', 'C21', 'C23', 'C24', 'C25', 'C26', 'C27', 'C28', 'C29', 'C30', 'C31', 'C32', 'C33', 'C34', 'C35', 'C36', 'C38', 'C40', 'C41']
 
 ENGINES = {
     'source_commits': [],
